@@ -968,7 +968,12 @@ pub async fn start_replication_supervisor(
                             );
                             guards.push(guard);
                         } else {
-                            panic!("Re-adding a secoundary that alrady exists!!!")
+                            // A repeated join must not take the supervisor (and with it all
+                            // membership handling of this node) down
+                            log::warn!(
+                                "[start_replication_creator_thread] ignoring secoundary {} it is already a cluster member",
+                                name
+                            );
                         }
                     }
 
